@@ -143,6 +143,12 @@ class IndepReader:
         return lkey, mkeys, dkeys
 
     def reachable(self) -> Set[str]:
+        """The FILES (table-relative, as the filesystem identifies them) that some retained snapshot needs."""
+        import posixpath
+        return {posixpath.normpath(k) for k in self.reachable_raw()}
+
+    def reachable_raw(self) -> Set[str]:
+        """The same as written (only leading slashes dropped)."""
         out: Set[str] = set()
         for s in self.snapshots():
             if not s.get("manifest_list"):
